@@ -199,6 +199,9 @@ pub struct Ctx {
     pub reprs: HashMap<Vec<U>, Vec<u32>>,
     pub dense_ctr: u64,
     pub adv_atoms: Vec<u32>,
+    /// adversarial atoms created with a list of named candidate values (replay hint: which
+    /// candidate, if any, the atom coincides with on the path)
+    pub adv_candidates: Vec<(String, u32, Vec<u32>)>,
     /// incremented whenever a symbolic scalar is given its positional encoding (= a NAF is being computed)
     pub epoch: u64,
     pub in_obligation: bool,
@@ -262,6 +265,7 @@ pub fn reset(cfg: RunCfg) {
             reprs: HashMap::new(),
             dense_ctr: 0,
             adv_atoms: vec![],
+            adv_candidates: vec![],
             epoch: 0,
             in_obligation: false,
             cross_defs: String::new(),
@@ -490,6 +494,17 @@ impl Ctx {
         }
         for (t, p) in self.parity.clone() {
             out.push((format!("parity[{}]", self.describe(t, 2)), if p { "1".into() } else { "0".into() }));
+        }
+        // replay hint: an adversarial value that coincides with one of its declared candidates in
+        // every model of the path is replayed as that candidate (whose concrete value the
+        // scenario computes itself — hash outputs have no transferable model value)
+        for (name, v, cands) in self.adv_candidates.clone() {
+            for (k, c) in cands.iter().enumerate() {
+                if (0..self.cfg.n_worlds).all(|w| self.eval(w, v) == self.eval(w, *c)) {
+                    out.push((format!("among:{name}"), format!("{k:x}")));
+                    break;
+                }
+            }
         }
         out
     }
